@@ -4,6 +4,7 @@ CONSTANTS
   KeyOrd <- Ord3
   InitEx <- Init3
   TO <- TOsmall
+  RevAhead = {0, 1}
   MaxNow = 3
   MaxPkt = 99
   MaxScan = 99
